@@ -493,6 +493,15 @@ func (a *analyser) run(fr *frame, b *ssa.BasicBlock, i int, prev *ssa.BasicBlock
 		case *ssa.Phi:
 			delete(fr.vals, ins)
 			fr.vals[ins] = a.eval(fr, ins, prev, 0)
+			// a boolean joined from several blocks (`ok := x != nil && err == nil`): the path remembers which edge
+			// it came by, so that a later branch on it is decided like a branch on the condition itself
+			if bt, ok := ins.Type().Underlying().(*types.Basic); ok && bt.Kind() == types.Bool && prev != nil {
+				for k, pb := range b.Preds {
+					if pb == prev && k < len(ins.Edges) {
+						st = st.with(fmt.Sprintf("phi:%s/%s", fr.sig, ins.Name()), int8(k+1))
+					}
+				}
+			}
 		case *ssa.Store:
 			if al, ok := ins.Addr.(*ssa.Alloc); ok {
 				if fr.mem == nil {
@@ -519,7 +528,23 @@ func (a *analyser) anyReach(fs []*ssa.Function) bool {
 func (a *analyser) branch(fr *frame, b *ssa.BasicBlock, ins *ssa.If, prev *ssa.BasicBlock, st facts, tr string, ret func([]*sym, facts, string)) {
 	goT := func(st facts) { a.run(fr, b.Succs[0], 0, b, st, tr, ret) }
 	goF := func(st facts) { a.run(fr, b.Succs[1], 0, b, st, tr, ret) }
-	if c, ok := ins.Cond.(*ssa.Const); ok {
+	// look through negations and through booleans joined by a phi (the edge this path came by)
+	cond := ins.Cond
+	for n := 0; n < 8; n++ {
+		if u, ok := cond.(*ssa.UnOp); ok && u.Op == token.NOT {
+			goT, goF = goF, goT
+			cond = u.X
+			continue
+		}
+		if ph, ok := cond.(*ssa.Phi); ok {
+			if k := st[fmt.Sprintf("phi:%s/%s", fr.sig, ph.Name())]; k > 0 && int(k) <= len(ph.Edges) {
+				cond = ph.Edges[k-1]
+				continue
+			}
+		}
+		break
+	}
+	if c, ok := cond.(*ssa.Const); ok {
 		if c.Value != nil && c.Value.String() == "true" {
 			goT(st)
 		} else {
@@ -527,7 +552,7 @@ func (a *analyser) branch(fr *frame, b *ssa.BasicBlock, ins *ssa.If, prev *ssa.B
 		}
 		return
 	}
-	if bo, ok := ins.Cond.(*ssa.BinOp); ok && (bo.Op == token.EQL || bo.Op == token.NEQ) {
+	if bo, ok := cond.(*ssa.BinOp); ok && (bo.Op == token.EQL || bo.Op == token.NEQ) {
 		var other ssa.Value
 		if c, ok := bo.Y.(*ssa.Const); ok && c.IsNil() {
 			other = bo.X
